@@ -635,23 +635,32 @@ func TestVerif_C19_root_spellings(t *testing.T) {
 				if len(want) > 0 {
 					r.NT()
 				}
-				// how "//" and "/./" inside the root are printed is not the property's business; ".." is: it is resolved by the
-				// kernel AFTER symlinks, so it must not be collapsed lexically
+				// what is demanded: every printed path names (through the file system, cwd = where fzf runs) the entry that the
+				// canonical listing names at the same place, and is spelled below the root as given when that spelling is not
+				// purely lexical; how "//", "/./" or a ".." that crosses no symlink are printed is not the property's business
 				norm := func(ls []string) []string {
 					out := make([]string, len(ls))
 					for i, l := range ls {
-						for strings.Contains(l, "//") {
-							l = strings.ReplaceAll(l, "//", "/")
+						dirMark := ""
+						if strings.HasSuffix(l, "/") {
+							dirMark, l = "/", strings.TrimSuffix(l, "/")
 						}
-						for strings.Contains(l, "/./") {
-							l = strings.ReplaceAll(l, "/./", "/")
+						// split without filepath.Dir / Base: they clean the path lexically, which is exactly what must not happen
+						k := strings.LastIndex(l, "/")
+						dir, leaf := ".", l
+						if k >= 0 {
+							dir, leaf = l[:k], l[k+1:]
 						}
-						out[i] = l
+						parent, err := filepath.EvalSymlinks(dir)
+						if err != nil {
+							parent = "UNRESOLVABLE(" + dir + ")"
+						}
+						out[i] = parent + "/" + leaf + dirMark
 					}
 					sort.Strings(out)
 					return out
 				}
-				got, want = norm(got), norm(want)
+				got, want = norm(got), norm(base)
 				if strings.Join(got, "\n") != strings.Join(want, "\n") {
 					r.Violation("root-spelling-changes-listing", map[string]any{"walker": walker, "walker_skip": skip, "canonical_root": canonical, "root": sp, "got": got, "want": want})
 				}
